@@ -244,11 +244,39 @@ pub fn pattern_utf8(n: usize, trailing_newlines: usize) -> Vec<u8> {
     v
 }
 
-/// `gen N [TRAILING_NEWLINES [u]]`
+/// Like `pattern`, but what precedes the trailing newlines is white space of several kinds (blank,
+/// tab, carriage return, vertical tab, form feed, no-break space) and, with two or more trailing
+/// newlines, a blank stands between the last two: nothing but the final newlines may be removed
+/// by a command substitution.
+pub fn pattern_ws(n: usize, trailing_newlines: usize) -> Vec<u8> {
+    const WS: [u8; 5] = [b' ', b'\t', b'\r', 0x0b, 0x0c];
+    let mut v = pattern(n, trailing_newlines);
+    let tn = trailing_newlines.min(n);
+    let body_end = n - tn;
+    if body_end >= 3 {
+        if n % 7 == 0 {
+            v[body_end - 2] = 0xC2;
+            v[body_end - 1] = 0xA0;
+        } else {
+            v[body_end - 1] = WS[n % 5];
+            v[body_end - 2] = WS[(n / 5) % 5];
+        }
+    }
+    if tn >= 2 && n >= 4 {
+        v[n - 2] = b' ';
+    }
+    v
+}
+
+/// `gen N [TRAILING_NEWLINES [u|w]]`
 async fn gen_main<S: Sys>(env: &mut Env<S>, args: Vec<Field>) -> BResult {
     let n = args.first().and_then(|f| f.value.parse::<usize>().ok()).unwrap_or(0);
     let tn = args.get(1).and_then(|f| f.value.parse::<usize>().ok()).unwrap_or(0);
-    let data = if args.get(2).is_some_and(|f| f.value == "u") { pattern_utf8(n, tn) } else { pattern(n, tn) };
+    let data = match args.get(2).map(|f| f.value.as_str()) {
+        Some("u") => pattern_utf8(n, tn),
+        Some("w") => pattern_ws(n, tn),
+        _ => pattern(n, tn),
+    };
     match env.system.write_all(Fd::STDOUT, &data).await {
         Ok(()) => BResult::new(ExitStatus(0)),
         Err(_) => BResult::new(ExitStatus(1)),
